@@ -69,6 +69,9 @@ impl Target {
 /// Write `reader` with the repository's writer for `target`.
 pub fn write_with_repo(reader: &mut dyn TilesReaderTrait, path: &Path) -> Result<(), Fail> {
 	let p = path.to_str().unwrap().to_string();
+	if p.ends_with(".mbtiles") {
+		util::throttle_threads();
+	}
 	match guard(|| util::block_on(versatiles_container::write_to_filename(reader, &p))) {
 		Ok(Ok(())) => Ok(()),
 		Ok(Err(e)) => Err(Fail::new("write:error", format!("writing {p} failed: {e:#}"))),
@@ -78,6 +81,9 @@ pub fn write_with_repo(reader: &mut dyn TilesReaderTrait, path: &Path) -> Result
 
 pub fn open_with_repo(path: &Path) -> Result<Box<dyn TilesReaderTrait>, Fail> {
 	let p = path.to_str().unwrap().to_string();
+	if p.ends_with(".mbtiles") {
+		util::throttle_threads();
+	}
 	match guard(|| util::block_on(versatiles_container::get_reader(&p))) {
 		Ok(Ok(r)) => Ok(r),
 		Ok(Err(e)) => Err(Fail::new(format!("open:error:{}", crate::engine::normalise(&format!("{e:#}"))), format!("opening {p} failed: {e:#}"))),
